@@ -246,13 +246,17 @@ def specs(draw, max_formulas=14, with_arrays=True, with_names=True,
         ah = draw(st.integers(1, 2))
         aw = 2
         ac = draw(st.integers(0, 2))
-        t, full, shape = rect_text(SHEET, ar, 0)
+        # optionally a second block, in an earlier row, that reads the whole
+        # first block (the first one then only reads the constant rows)
+        chained = ar >= n_const_rows + 2 and draw(st.integers(0, 2)) == 0
+        t, full, shape = rect_text(
+            SHEET, n_const_rows + 1 if chained else ar, 0)
         form = draw(st.sampled_from(['={T}*2', '={T}+1', '=ABS({T})',
                                      '={T}&"k"', '={T}>1', '={T}',
                                      '=IF({T}>0,{T},"")', '={T}*{R}',
                                      '={R}+{T}']))
         single = (f'{COLS[draw(st.integers(0, 3))]}'
-                  f'{draw(st.integers(1, ar - 1))}')
+                  f'{draw(st.integers(1, n_const_rows if chained else ar - 1))}')
         ref = f'{COLS[ac]}{ar}:{COLS[ac + aw - 1]}{ar + ah - 1}'
         arrays.append(dict(sheet=SHEET, ref=ref,
                            formula=form.format(T=t, R=single)))
@@ -263,6 +267,17 @@ def specs(draw, max_formulas=14, with_arrays=True, with_names=True,
             for j in range(aw):
                 taken.add((ar + i, ac + j))
                 formulas.append(f'{SHEET}!{COLS[ac + j]}{ar + i}')
+        if chained:
+            dr = draw(st.integers(n_const_rows + 1, ar - 1))
+            dc = draw(st.integers(0, 2))
+            dform = draw(st.sampled_from(['={P}*2', '={P}+1', '={P}']))
+            dref = f'{COLS[dc]}{dr}:{COLS[dc + 1]}{dr}'
+            arrays.append(dict(sheet=SHEET, ref=dref,
+                               formula=dform.format(P=ref)))
+            ranges.append(f'{SHEET}!{dref}')
+            for j in range(2):
+                taken.add((dr, dc + j))
+                formulas.append(f'{SHEET}!{COLS[dc + j]}{dr}')
     for (r, ci) in positions:
         if made >= n_formulas:
             break
